@@ -227,7 +227,7 @@ def r2(ctx, sc):
     # yy_scan_bytes: the copy handed to yy_scan_buffer
     fn = sc.fn('SCANBYTES')
     if fn is None:
-        rep.vacuous.append('C04.R2 %s: no yy_scan_bytes in this variant (%s)' % (v.name, 'C++ back end' if v.backend == 'cxx' else 'noyy_scan_bytes'))
+        c03.vac(rep, v, 'C04.R2: no yy_scan_bytes in this variant (%s)' % ('C++ back end' if v.backend == 'cxx' else 'noyy_scan_bytes'))
     else:
         a = sc.fa(fn); cfg = sc.prog.cfg(fn)
         calls = sc.calls(fn, 'SCANBUFFER')
@@ -246,7 +246,7 @@ def r2(ctx, sc):
     # yyunput_r: the shift moves yy_n_chars + 2 bytes
     fn = sc.fn('UNPUT')
     if fn is None:
-        rep.vacuous.append('C04.R2 %s: no yyunput in this variant (noyyunput)' % v.name)
+        c03.vac(rep, v, 'C04.R2: no yyunput in this variant (noyyunput)')
     else:
         a = sc.fa(fn)
         n += 1
@@ -497,6 +497,7 @@ def run(ctx):
                       'that the tables themselves have 256 columns in 8-bit mode (C01/C15)']
     rep.assumptions += ['clang -O0 IR of the instantiated skeleton is a faithful rendering of the generated C/C++ source',
                         'YY_SC_TO_UI is the only conversion applied to input bytes before table lookups (found by data flow, not by name)']
+    c03.flush_vac(rep)
     return rep.finish('other',
         'Path and data-flow rules on LLVM IR of %d instantiated scanner variants (nr, r, C++, c99, go; every table mode x interactive/batch x '
         'REJECT): assignment of the scan-position local on the jam-on-NUL edge, sentinel stores post-dominating every store of yy_n_chars, '
